@@ -100,6 +100,7 @@ def histories(ctx):
         hs += hist(ctx, mode, ln, simulate=n, seed=ctx.seed * 10 + ln)
     # long-lived query objects across removals, re-additions and rebuilds (two shapes, one of them the 40-edge S2)
     hs += hist(ctx, "index-ceq", 7 if q else 8, catalog={'"S2"'})
+    hs += hist(ctx, "index-cpq", 7 if q else 8, catalog={rnd.choice(['"S1"', '"S2"', '"S3"'])})
     if not q:
         hs += hist(ctx, "index-q", 7, catalog={'"S2"', rnd.choice(['"S1"', '"S3"'])})
     hs += hist(ctx, "index-q", 10, simulate=300 if q else 5000, seed=ctx.seed * 10 + 3, catalog={'"S2"', rnd.choice(['"S1"', '"S3"'])})
